@@ -300,3 +300,30 @@ Proof.
       rewrite YL. reflexivity.
     + destruct (mem a (map fst leftover)); reflexivity.
 Qed.
+
+Lemma in_firstn {A} n : forall (l : list A) x, In x (firstn n l) -> In x l.
+Proof. induction n as [|n IH]; intros l x; [intros []|]. destruct l as [|y l]; cbn [firstn]; [intros []|]. intros [E|I]; [left; exact E|right; apply IH; exact I]. Qed.
+
+(* C09: from the validator-set update on, a jailed (or not staked) validator is not in the set the module reports to
+   Tendermint - whatever power it had before *)
+Theorem jailed_absent_from_tm_set s s' ups a v : idx_sound s -> dsorted true (prevpow s) -> update_tm_validators s = Some (s', ups) ->
+  get_val s a = Some v -> (v_jailed v = true \/ v_status v <> 2%N) -> aget (prevpow s') a = None.
+Proof.
+  intros HS SS E Ev Bad. rewrite (tm_set_is_top_of_index s s' ups HS SS E a). cbv zeta.
+  destruct (mem a (map snd (firstn (Z.to_nat (p_max_validators (pp s))) (rev (powidx s))))) eqn:M; [|reflexivity].
+  exfalso. apply mem_in in M. apply in_map_iff in M. destruct M as ([k a'] & Ea & I). cbn [snd] in Ea. subst a'.
+  apply in_firstn in I. apply in_rev in I. destruct HS as (SV & SP & HI).
+  destruct (HI k a (in_aget _ _ _ SP I)) as (w & Ew & St & J & _). unfold get_val in Ev. rewrite Ev in Ew. injection Ew as <-.
+  destruct Bad as [Bj|Bs]; congruence.
+Qed.
+(* ... and an unjailed, staked validator inside the MaxValidators cut-off is in it with exactly the power of its stake *)
+Theorem member_has_the_power_of_its_stake s s' ups a p : idx_sound s -> dsorted true (prevpow s) -> update_tm_validators s = Some (s', ups) ->
+  aget (prevpow s') a = Some p -> exists v, get_val s a = Some v /\ v_status v = 2%N /\ v_jailed v = false /\ p = power_of (v_tokens v).
+Proof.
+  intros HS SS E Ep. rewrite (tm_set_is_top_of_index s s' ups HS SS E a) in Ep. cbv zeta in Ep.
+  destruct (mem a (map snd (firstn (Z.to_nat (p_max_validators (pp s))) (rev (powidx s))))) eqn:M; [|discriminate].
+  apply mem_in in M. apply in_map_iff in M. destruct M as ([k a'] & Ea & I). cbn [snd] in Ea. subst a'.
+  apply in_firstn in I. apply in_rev in I. destruct HS as (SV & SP & HI).
+  destruct (HI k a (in_aget _ _ _ SP I)) as (w & Ew & St & J & _). exists w. unfold get_val in *. rewrite Ew in Ep. cbn in Ep.
+  injection Ep as <-. auto.
+Qed.
